@@ -39,6 +39,8 @@ Fixpoint mon (cur : Z) (src : option Z) (made : list (N * ddef)) (ops : list fop
         match o with
         | FCreate _ _ d => (see cur src, src,
                             match o_id ob with Some id => (id, d) :: made | None => made end)
+        | FCreateRace _ _ d s => (see (see cur src) s, s,
+                                  match o_id ob with Some id => (id, d) :: made | None => made end)
         | FClear => (cur, src, [])
         | FPeers s fire => ((if fire then see cur s else cur), s, made)
         end in
@@ -55,7 +57,11 @@ Fixpoint mon (cur : Z) (src : option Z) (made : list (N * ddef)) (ops : list fop
               else (if g =? init_goal d then [] else [11%N])
           end
         else [] in
-      (if o_peers ob =? cur' then [] else [12%N]) ++ flat_map per made' ++ mon cur' src' made' r rs
+      (* 14: a membership change delivered during a sampler creation was overwritten by the
+             creation's stale reading of the peer list *)
+      let racing := match o with FCreateRace _ _ _ _ => true | _ => false end in
+      (if o_peers ob =? cur' then [] else [if racing then 14%N else 12%N]) ++
+      flat_map per made' ++ mon cur' src' made' r rs
   | _, _ => []
   end.
 
